@@ -170,6 +170,27 @@ pub fn run(seed: u64, n: usize, out: &str, c16: bool) {
                 format!("{{{}\"kind\":\"mul\",\"a\":{},\"b\":{},\"out\":{}}}", f32_mark(), jfs(&before), jfs(&mats(&et)), jfs(&mats(&t))),
             );
         }
+        // a right-hand side that is itself a PRODUCT (b = e1; b *= e2; ..; t *= b): with only constructors on the right the
+        // translation of the right operand's inverse is never multiplied by a non-trivial linear part (seeded change C06-m5: an
+        // "affine" product whose inverse translation is right for constructors only).  Own generator state; the composed transform
+        // is not used further, so the cases that follow are unchanged
+        {
+            let mut y = Rng(r.0 ^ 0xC06_C0B0);
+            if y.chance(0.35) {
+                let rhs = rand_chain(&mut y);
+                if rhs.len() >= 2 {
+                    let mut b = Transform::new();
+                    for e in rhs.iter().take(3) { b *= elem_tr(e); }
+                    let before = mats(&t);
+                    let mut t2 = from_mats(&before);
+                    t2 *= b.clone();
+                    sink.push(
+                        format!("(1%N, {}, 0%N, {}, {})", sfs(&before), sfs(&mats(&b)), sfs(&mats(&t2))),
+                        format!("{{{}\"kind\":\"mul\",\"a\":{},\"b\":{},\"out\":{}}}", f32_mark(), jfs(&before), jfs(&mats(&b)), jfs(&mats(&t2))),
+                    );
+                }
+            }
+        }
         let m = mats(&t);
         let nops = if c16 { 10 } else { 8 };
         for _ in 0..nops {
